@@ -138,13 +138,18 @@ Section Proto.
   Variable resume : K -> MS -> MS * list I * status (K:=K) (R:=R).
   Variable ret : K -> R -> K.
   Variable reg : MS -> nat -> option (list nat).
+  Variable cfail xfail : call -> ctx -> bool.
+  Variable r_refused : call -> ctx -> R.
+  Variable r_exit : call -> ctx -> R -> R.
   Variable cfg : lcfg.
   Hypothesis WF : wf_cfg cfg = true.
 
   Notation gst := (gstate (MS:=MS) (K:=K) (R:=R) (I:=I)).
   Notation thr := (thread (K:=K) (R:=R) (I:=I)).
   Notation actn := (act (K:=K) (R:=R)).
-  Notation stp := (step start resume ret reg cfg).
+  Notation stp := (step start resume ret reg cfail xfail r_refused r_exit cfg).
+  Notation blocked := (blocked cfail).
+  Notation enabled := (enabled cfail).
   Notation goodc := (good cfg).
 
   Definition lockfree (b : actn) : Prop := a_held b = [] /\ exists k, a_phase b = PRun k.
@@ -204,15 +209,15 @@ Section Proto.
     apply (proj1 (Hl t1 N1)) in I1. apply (proj1 (Hl t2 N2)) in I2. congruence.
   Qed.
 
-  Lemma inv_update : forall (g : gst) tid th' ms' own' id' log' acq' done' bad',
+  Lemma inv_update : forall (g : gst) tid th' ms' own' id' log' acq' done' bad' fin',
     Inv g -> tid <> 0 -> shape th' ->
     (forall l, own' l = tid <-> In (CLock l) (cur_held th')) ->
     (id' = tid <-> In CIdent (cur_held th')) ->
     (forall t', t' <> 0 -> t' <> tid ->
        (forall l, own' l = t' <-> g_own g l = t') /\ (id' = t' <-> g_ident g = t')) ->
-    Inv (mkG ms' own' id' (upd (g_th g) tid th') log' acq' done' bad').
+    Inv (mkG ms' own' id' (upd (g_th g) tid th') log' acq' done' bad' fin').
   Proof.
-    intros g tid th' ms' own' id' log' acq' done' bad' [Hs Hl] Nt Hsh Hown Hid Hfr. split.
+    intros g tid th' ms' own' id' log' acq' done' bad' fin' [Hs Hl] Nt Hsh Hown Hid Hfr. split.
     - intros t N. simpl. destruct (Nat.eq_dec t tid) as [->|D].
       + rewrite upd_same. exact Hsh.
       + rewrite upd_other by exact D. apply Hs. exact N.
@@ -267,7 +272,14 @@ Section Proto.
         destruct (proj1 Hgood) as [tl0 [Hc0 Htl0]]. destruct Hgood as [_ [Hnd Hident]].
         destruct ph as [todo|k|r].
         * destruct Hsh as [Hpre [Hne _]]. destruct todo as [|x todo]; [congruence|]. destruct x as [l|].
-          -- destruct (Nat.eqb (g_own g l) 0) eqn:Eo; simpl; intros _.
+          -- destruct (cfail c (CLock l)) eqn:Ecf.
+             { (* the context refuses: unwind *)
+               destruct hd as [|y h]; simpl; intros _.
+               - apply inv_update; try assumption; [unfold shape; reflexivity | intros t' N D; tauto].
+               - apply inv_update; try assumption; [|intros t' N D; tauto].
+                 unfold shape. simpl. split; [repeat split; try assumption; eexists; split; eassumption|].
+                 split; [eexists; exact Hpre | split; [discriminate | reflexivity]]. }
+             destruct (Nat.eqb (g_own g l) 0) eqn:Eo; simpl; intros _.
              ++ apply Nat.eqb_eq in Eo. apply inv_update; try assumption.
                 ** unfold shape, after_acq. simpl. split; [repeat split; try assumption; eexists; split; eassumption|].
                    destruct todo as [|y todo']; simpl.
@@ -402,20 +414,20 @@ Section Proto.
     intros tid g H. unfold step. destruct (Nat.eqb tid 0); [exact H|].
     destruct (t_nest (g_th g tid)) as [|top restn].
     - destruct (t_cur (g_th g tid)) as [a|].
-      + destruct (act_step start resume reg cfg tid a _) as [[s' o] its].
+      + destruct (act_step start resume reg cfail xfail r_refused r_exit cfg tid a _) as [[s' o] its].
         destruct o; simpl; rewrite H; reflexivity.
       + destruct (t_prog (g_th g tid)); [exact H|]. simpl. rewrite H. reflexivity.
-    - destruct (act_step start resume reg cfg tid top _) as [[s' o] its].
+    - destruct (act_step start resume reg cfail xfail r_refused r_exit cfg tid top _) as [[s' o] its].
       destruct o; [| |destruct restn|]; simpl; rewrite H; reflexivity.
   Qed.
 
-  Lemma run_bad_mono : forall sched (g : gst), g_bad g = true -> g_bad (run start resume ret reg cfg sched g) = true.
+  Lemma run_bad_mono : forall sched (g : gst), g_bad g = true -> g_bad (run start resume ret reg cfail xfail r_refused r_exit cfg sched g) = true.
   Proof.
     induction sched as [|t r IH]; intros g H; simpl; [exact H|]. apply IH. apply step_bad_mono. exact H.
   Qed.
 
-  Lemma run_inv : forall sched (g : gst), Inv g -> g_bad (run start resume ret reg cfg sched g) = false ->
-    Inv (run start resume ret reg cfg sched g).
+  Lemma run_inv : forall sched (g : gst), Inv g -> g_bad (run start resume ret reg cfail xfail r_refused r_exit cfg sched g) = false ->
+    Inv (run start resume ret reg cfail xfail r_refused r_exit cfg sched g).
   Proof.
     induction sched as [|t r IH]; intros g H Hb; simpl in *; [exact H|]. apply IH; [|exact Hb]. apply step_inv; [exact H|].
     destruct (g_bad (stp t g)) eqn:E; [|reflexivity]. rewrite (run_bad_mono r _ E) in Hb. discriminate.
@@ -486,6 +498,7 @@ Section Proto.
     destruct (t_nest (g_th g t)) as [|top rest] eqn:En.
     - destruct (a_phase a) as [todo|k|r] eqn:Ep; try reflexivity.
       destruct todo as [|x todo]; [reflexivity|]. destruct x as [l|]; [|reflexivity].
+      destruct (cfail (a_call a) (CLock l)); [reflexivity|]. simpl.
       destruct (Nat.eqb (g_own g l) 0) eqn:Eo; [reflexivity|]. exfalso. apply Nat.eqb_neq in Eo.
       destruct Hs as [Hpre _].
       assert (g_own g l = t) as Et.
@@ -509,6 +522,7 @@ Section Proto.
     - unfold blocked in Eb. destruct (top_act (g_th g t)) as [a|] eqn:Et; [|discriminate].
       destruct (a_phase a) as [todo|k|r]; try discriminate.
       destruct todo as [|x todo]; [discriminate|]. destruct x as [l|]; [|discriminate].
+      apply andb_true_iff in Eb. destruct Eb as [_ Eb].
       apply negb_true_iff in Eb. apply Nat.eqb_neq in Eb.
       set (o := g_own g l) in *.
       assert (held g o <> []) as Hh.
@@ -617,17 +631,17 @@ Section Proto.
   Definition SInv (g : gst) : Prop :=
     exists msk, sexec (dcalls (g_done g)) ms0 msk (dress (g_done g)) /\ HA g msk /\ HB g msk /\ HC g.
 
-  Lemma sinv_update : forall (g : gst) tid th' ms' own' id' log' acq' done' bad' msk msk',
-    Inv g -> Inv (mkG ms' own' id' (upd (g_th g) tid th') log' acq' done' bad') -> tid <> 0 ->
+  Lemma sinv_update : forall (g : gst) tid th' ms' own' id' log' acq' done' bad' fin' msk msk',
+    Inv g -> Inv (mkG ms' own' id' (upd (g_th g) tid th') log' acq' done' bad' fin') -> tid <> 0 ->
     HA g msk -> HB g msk -> HC g ->
     sexec (dcalls done') ms0 msk' (dress done') ->
     (cur_held th' = [] -> (forall t, t <> 0 -> t <> tid -> held g t = []) -> ms' = msk' /\ acq' = dpairs done') ->
     (forall a, t_cur th' = Some a -> a_held a <> [] -> modeB ms' acq' done' th' tid a msk') ->
     (forall a todo, t_cur th' = Some a -> a_phase a = PAcq todo -> t_items th' = []) ->
     (held g tid = [] -> cur_held th' = [] -> ms' = g_ms g /\ acq' = g_acq g /\ done' = g_done g /\ msk' = msk) ->
-    SInv (mkG ms' own' id' (upd (g_th g) tid th') log' acq' done' bad').
+    SInv (mkG ms' own' id' (upd (g_th g) tid th') log' acq' done' bad' fin').
   Proof.
-    intros g tid th' ms' own' id' log' acq' done' bad' msk msk' HI HI' N A B C Hser LA LB LC FR.
+    intros g tid th' ms' own' id' log' acq' done' bad' fin' msk msk' HI HI' N A B C Hser LA LB LC FR.
     exists msk'. split; [exact Hser|]. split; [|split].
     - intro Hno. simpl. apply LA.
       + specialize (Hno tid N). unfold held in Hno. simpl in Hno. rewrite upd_same in Hno. exact Hno.
@@ -684,7 +698,24 @@ Section Proto.
           assert (t_items (g_th g tid) ++ [] = []) as Hit.
           { rewrite app_nil_r. eapply C; [exact E0 | exact Ec | reflexivity]. }
           destruct x as [l|].
-          -- destruct (Nat.eqb (g_own g l) 0) eqn:Eo; simpl; intro HI'.
+          -- destruct (cfail c (CLock l)) eqn:Ecf.
+             { (* the context refuses: the call is unwound, nothing was processed *)
+               destruct hd as [|y h]; simpl; intro HI'.
+               - eapply sinv_update with (msk := msk) (msk' := msk); try eassumption.
+                 + intros _ Hoth. apply A. intros t Nt. destruct (Nat.eq_dec t tid) as [->|D].
+                   { unfold held. rewrite Ec. reflexivity. } { apply Hoth; assumption. }
+                 + intros a0 Ea _. discriminate Ea.
+                 + intros a0 todo0 Ea _. discriminate Ea.
+                 + intros _ _. repeat split; reflexivity.
+               - pose proof (B tid _ E0 Ec) as Bt. simpl in Bt. unfold modeB in Bt. simpl in Bt.
+                 destruct Bt as [Ems Eacq]; [discriminate|].
+                 eapply sinv_update with (msk := msk) (msk' := msk); try eassumption.
+                 + intros H _. discriminate H.
+                 + intros a0 Ea _. inversion Ea; subst a0. unfold modeB. simpl. split; [exact Ems|].
+                   rewrite Eacq. apply removelast_last.
+                 + intros a0 todo0 Ea Ep. inversion Ea; subst a0. discriminate Ep.
+                 + intros H _. unfold held in H. rewrite Ec in H. discriminate H. }
+             destruct (Nat.eqb (g_own g l) 0) eqn:Eo; simpl; intro HI'.
              ++ apply Nat.eqb_eq in Eo. destruct hd as [|y h]; simpl.
                 ** (* first acquisition: nobody was inside *)
                    simpl in Hpre. rewrite Hc0 in Hpre.
@@ -845,8 +876,8 @@ Section Proto.
   Qed.
 
   Lemma run_both : forall sched (g : gst), Inv g -> SInv g ->
-    g_bad (run start resume ret reg cfg sched g) = false ->
-    Inv (run start resume ret reg cfg sched g) /\ SInv (run start resume ret reg cfg sched g).
+    g_bad (run start resume ret reg cfail xfail r_refused r_exit cfg sched g) = false ->
+    Inv (run start resume ret reg cfail xfail r_refused r_exit cfg sched g) /\ SInv (run start resume ret reg cfail xfail r_refused r_exit cfg sched g).
   Proof.
     induction sched as [|t r IH]; intros g H1 H2 Hb; simpl in *; [split; assumption|].
     assert (g_bad (stp t g) = false) as Hb1.
@@ -856,7 +887,7 @@ Section Proto.
 
   (* reachable within the envelope: the ghost flag is still down *)
   Definition reachable (progs : nat -> list call) (g : gst) : Prop :=
-    exists sched, g = run start resume ret reg cfg sched (init progs ms0) /\ g_bad g = false.
+    exists sched, g = run start resume ret reg cfail xfail r_refused r_exit cfg sched (init progs ms0) /\ g_bad g = false.
 
   Lemma reachable_inv : forall progs g, reachable progs g -> Inv g /\ SInv g.
   Proof. intros progs g [sched [-> Hb]]. apply run_both; [apply init_inv | apply init_sinv | exact Hb]. Qed.
@@ -884,8 +915,11 @@ Section Proto.
   Qed.
 
   (* ---------------------------------------------------------------- "the same calls" *)
-  Definition tcalls (t : nat) (d : list (dentry (R:=R) (I:=I))) : list call :=
-    dcalls (filter (fun x => Nat.eqb (d_tid x) t) d).
+  Notation fentry := (nat * call * bool)%type.
+  Definition tcalls (t : nat) (fin : list fentry) : list call :=
+    map (fun x : fentry => snd (fst x)) (filter (fun x : fentry => Nat.eqb (fst (fst x)) t) fin).
+  Definition processed (fin : list fentry) : list (nat * call) :=
+    map (fun x : fentry => fst x) (filter (fun x : fentry => snd x) fin).
 
   Definition pend (th : thr) : list call :=
     match t_cur th with
@@ -893,33 +927,55 @@ Section Proto.
     | None => []
     end.
 
-  (* per thread: its program = its completed calls (in order) ++ the one in progress ++ the rest *)
+  (* per thread: its program = its finished calls (processed or refused by a context, in order) ++ the one in
+     progress ++ the rest; the processed ones are exactly the completed calls of the serial execution *)
   Definition PInv (progs : nat -> list call) (g : gst) : Prop :=
-    forall t, t <> 0 -> progs t = tcalls t (g_done g) ++ pend (g_th g t) ++ t_prog (g_th g t).
+    (forall t, t <> 0 -> progs t = tcalls t (g_fin g) ++ pend (g_th g t) ++ t_prog (g_th g t)) /\
+    dpairs (g_done g) = processed (g_fin g).
 
-  Lemma tcalls_snoc : forall t d x,
-    tcalls t (d ++ [x]) = if Nat.eqb (d_tid x) t then tcalls t d ++ [d_call x] else tcalls t d.
+  Lemma tcalls_snoc : forall t fin x,
+    tcalls t (fin ++ [x]) = if Nat.eqb (fst (fst x)) t then tcalls t fin ++ [snd (fst x)] else tcalls t fin.
   Proof.
-    intros t d x. unfold tcalls. rewrite filter_app. simpl. destruct (Nat.eqb (d_tid x) t).
-    - apply dcalls_snoc.
+    intros t fin x. unfold tcalls. rewrite filter_app. simpl. destruct (Nat.eqb (fst (fst x)) t).
+    - rewrite map_app. reflexivity.
     - rewrite app_nil_r. reflexivity.
   Qed.
 
-  Lemma pinv_update : forall progs (g : gst) tid th' ms' own' id' log' acq' done' bad',
-    PInv progs g -> tid <> 0 ->
-    ((done' = g_done g /\ pend th' ++ t_prog th' = pend (g_th g tid) ++ t_prog (g_th g tid)) \/
-     (exists x, done' = g_done g ++ [x] /\ d_tid x = tid /\
-                d_call x :: pend th' ++ t_prog th' = pend (g_th g tid) ++ t_prog (g_th g tid))) ->
-    PInv progs (mkG ms' own' id' (upd (g_th g) tid th') log' acq' done' bad').
+  Lemma processed_snoc : forall fin x,
+    processed (fin ++ [x]) = if snd x then processed fin ++ [fst x] else processed fin.
   Proof.
-    intros progs g tid th' ms' own' id' log' acq' done' bad' H N Hc t Nt. simpl.
-    destruct (Nat.eq_dec t tid) as [->|D].
-    - rewrite upd_same. rewrite (H tid N). destruct Hc as [[-> E]|[x [-> [Ex E]]]].
-      + rewrite E. reflexivity.
-      + rewrite tcalls_snoc, Ex, Nat.eqb_refl. rewrite <- app_assoc. simpl. rewrite E. reflexivity.
-    - rewrite upd_other by exact D. rewrite (H t Nt). destruct Hc as [[-> _]|[x [-> [Ex _]]]]; [reflexivity|].
-      rewrite tcalls_snoc, Ex. apply Nat.eqb_neq in D. rewrite Nat.eqb_sym, D. reflexivity.
+    intros fin x. unfold processed. rewrite filter_app. simpl. destruct (snd x).
+    - rewrite map_app. reflexivity.
+    - rewrite app_nil_r. reflexivity.
   Qed.
+
+  Lemma pinv_update : forall progs (g : gst) tid th' ms' own' id' log' acq' done' bad' fin',
+    PInv progs g -> tid <> 0 ->
+    ((done' = g_done g /\ fin' = g_fin g /\
+      pend th' ++ t_prog th' = pend (g_th g tid) ++ t_prog (g_th g tid)) \/
+     (exists x, done' = g_done g ++ [x] /\ fin' = g_fin g ++ [(tid, d_call x, true)] /\ d_tid x = tid /\
+                d_call x :: pend th' ++ t_prog th' = pend (g_th g tid) ++ t_prog (g_th g tid)) \/
+     (exists c, done' = g_done g /\ fin' = g_fin g ++ [(tid, c, false)] /\
+                c :: pend th' ++ t_prog th' = pend (g_th g tid) ++ t_prog (g_th g tid))) ->
+    PInv progs (mkG ms' own' id' (upd (g_th g) tid th') log' acq' done' bad' fin').
+  Proof.
+    intros progs g tid th' ms' own' id' log' acq' done' bad' fin' [H HD] N Hc. split.
+    - intros t Nt. simpl. destruct (Nat.eq_dec t tid) as [->|D].
+      + rewrite upd_same. rewrite (H tid N). destruct Hc as [[_ [-> E]]|[[x [_ [-> [Ex E]]]]|[c [_ [-> E]]]]].
+        * rewrite E. reflexivity.
+        * rewrite tcalls_snoc. simpl. rewrite Nat.eqb_refl. rewrite <- app_assoc. simpl. rewrite E. reflexivity.
+        * rewrite tcalls_snoc. simpl. rewrite Nat.eqb_refl. rewrite <- app_assoc. simpl. rewrite E. reflexivity.
+      + rewrite upd_other by exact D. rewrite (H t Nt).
+        destruct Hc as [[_ [-> _]]|[[x [_ [-> _]]]|[c [_ [-> _]]]]]; [reflexivity| |];
+          rewrite tcalls_snoc; simpl; apply Nat.eqb_neq in D; rewrite Nat.eqb_sym, D; reflexivity.
+    - simpl. destruct Hc as [[-> [-> _]]|[[x [-> [-> [Ex _]]]]|[c [-> [-> _]]]]].
+      + exact HD.
+      + rewrite dpairs_snoc, processed_snoc. simpl. rewrite HD, Ex. reflexivity.
+      + rewrite processed_snoc. simpl. exact HD.
+  Qed.
+
+  Ltac pv_same H E0 Ec := apply pinv_update; [exact H | exact E0|]; left; unfold pend; simpl; try rewrite Ec;
+                          repeat split; try reflexivity.
 
   Lemma step_pinv : forall progs tid (g : gst), PInv progs g -> PInv progs (stp tid g).
   Proof.
@@ -927,46 +983,40 @@ Section Proto.
     destruct (t_nest (g_th g tid)) as [|top restn] eqn:En.
     - destruct (t_cur (g_th g tid)) as [a|] eqn:Ec.
       + destruct a as [c ph hd acx]. unfold act_step. simpl. destruct ph as [todo|k|r].
-        * destruct todo as [|x todo].
-          { simpl. apply pinv_update; [exact H | exact E0|]. left. unfold pend. simpl. rewrite Ec. split; reflexivity. }
+        * destruct todo as [|x todo]; [simpl; pv_same H E0 Ec|].
           destruct x as [l|].
-          -- destruct (Nat.eqb (g_own g l) 0); simpl; (apply pinv_update; [exact H | exact E0|]); left;
-               unfold pend, after_acq; simpl; rewrite Ec; simpl; split; try reflexivity.
-             destruct todo; reflexivity.
-          -- simpl. apply pinv_update; [exact H | exact E0|]. left. unfold pend, after_acq. simpl. rewrite Ec. simpl.
-             split; [reflexivity|]. destruct todo; reflexivity.
-        * destruct (resume k (g_ms g)) as [[ms' its] st]. destruct st as [k'|c' k'|r]; simpl.
-          -- apply pinv_update; [exact H | exact E0|]. left. unfold pend. simpl. rewrite Ec. split; reflexivity.
-          -- apply pinv_update; [exact H | exact E0|]. left. unfold pend. simpl. rewrite Ec. split; reflexivity.
-          -- destruct hd as [|y h]; simpl.
-             ++ apply pinv_update; [exact H | exact E0|]. right. eexists. split; [reflexivity|]. split; [reflexivity|].
-                unfold pend. simpl. rewrite Ec. reflexivity.
-             ++ apply pinv_update; [exact H | exact E0|]. right. eexists. split; [reflexivity|]. split; [reflexivity|].
-                unfold pend. simpl. rewrite Ec. reflexivity.
-        * destruct hd as [|x h]; simpl.
-          -- apply pinv_update; [exact H | exact E0|]. left. unfold pend. simpl. rewrite Ec. split; reflexivity.
-          -- destruct h as [|y h']; simpl; (apply pinv_update; [exact H | exact E0|]); left; unfold pend; simpl;
-               rewrite Ec; split; reflexivity.
+          -- destruct (cfail c (CLock l)).
+             { destruct hd as [|y h]; simpl; (apply pinv_update; [exact H | exact E0|]); right; right; exists c;
+                 unfold pend; simpl; rewrite Ec; repeat split; reflexivity. }
+             destruct (Nat.eqb (g_own g l) 0); simpl; [unfold after_acq; destruct todo; simpl|]; pv_same H E0 Ec.
+          -- unfold after_acq; destruct todo; simpl; pv_same H E0 Ec.
+        * destruct (resume k (g_ms g)) as [[ms' its] st]. destruct st as [k'|c' k'|r]; simpl; try pv_same H E0 Ec.
+          destruct hd as [|y h]; simpl; (apply pinv_update; [exact H | exact E0|]); right; left; eexists;
+            unfold pend; simpl; rewrite Ec; repeat split; reflexivity.
+        * destruct hd as [|x h]; simpl; [pv_same H E0 Ec|].
+          destruct h as [|y h']; simpl; pv_same H E0 Ec.
       + destruct (t_prog (g_th g tid)) as [|c rest] eqn:Ep; [exact H|].
-        apply pinv_update; [exact H | exact E0|]. left. split; [reflexivity|].
+        apply pinv_update; [exact H | exact E0|]. left. split; [reflexivity|]. split; [reflexivity|].
         unfold pend. simpl. rewrite Ec, Ep. unfold enter_call.
         destruct (Nat.eqb (g_ident g) tid); [reflexivity|]. destruct (ctxs_of reg cfg (g_ms g) c); reflexivity.
-    - match goal with |- context [act_step ?a ?b ?c ?d ?e ?f] => destruct (act_step a b c d e f) as [[s' o] its] end.
+    - match goal with |- context [act_step ?a ?b ?c ?d ?e ?f ?g1 ?h ?i ?j ?k] =>
+        destruct (act_step a b c d e f g1 h i j k) as [[s' o] its] end.
       destruct o as [a'|a' b bd|r|].
-      + apply pinv_update; [exact H | exact E0|]. left. split; [reflexivity|]. unfold pend. reflexivity.
-      + apply pinv_update; [exact H | exact E0|]. left. split; [reflexivity|]. unfold pend. reflexivity.
+      + apply pinv_update; [exact H | exact E0|]. left. repeat split; reflexivity.
+      + apply pinv_update; [exact H | exact E0|]. left. repeat split; reflexivity.
       + destruct restn as [|p restn'].
-        * apply pinv_update; [exact H | exact E0|]. left. split; [reflexivity|].
+        * apply pinv_update; [exact H | exact E0|]. left. split; [reflexivity|]. split; [reflexivity|].
           unfold pend. simpl. destruct (t_cur (g_th g tid)) as [a|]; [|reflexivity].
           simpl. unfold deliver. destruct (a_phase a) eqn:Eph; simpl; rewrite ?Eph; reflexivity.
-        * apply pinv_update; [exact H | exact E0|]. left. split; [reflexivity|]. unfold pend. reflexivity.
-      + apply pinv_update; [exact H | exact E0|]. left. split; [reflexivity|]. unfold pend. reflexivity.
+        * apply pinv_update; [exact H | exact E0|]. left. repeat split; reflexivity.
+      + apply pinv_update; [exact H | exact E0|]. left. repeat split; reflexivity.
   Qed.
 
   Lemma init_pinv : forall progs, PInv progs (init progs ms0 : gst).
-  Proof. intros progs t N. reflexivity. Qed.
+  Proof. intros progs. split; [intros t N; reflexivity | reflexivity]. Qed.
 
-  Lemma run_pinv : forall progs sched (g : gst), PInv progs g -> PInv progs (run start resume ret reg cfg sched g).
+  Lemma run_pinv : forall progs sched (g : gst), PInv progs g ->
+    PInv progs (run start resume ret reg cfail xfail r_refused r_exit cfg sched g).
   Proof.
     intros progs. induction sched as [|t r IH]; intros g H; simpl; [exact H|]. apply IH. apply step_pinv. exact H.
   Qed.
@@ -999,21 +1049,22 @@ Section Proto.
     destruct (Nat.eq_dec t tid) as [->|D].
     2:{ destruct (t_nest (g_th g tid)) as [|top restn].
         - destruct (t_cur (g_th g tid)) as [b|].
-          + destruct (act_step start resume reg cfg tid b _) as [[s' o] its].
+          + destruct (act_step start resume reg cfail xfail r_refused r_exit cfg tid b _) as [[s' o] its].
             destruct o; simpl; rewrite upd_other by exact D; rewrite Ea; split; reflexivity.
           + destruct (t_prog (g_th g tid)); simpl; [|rewrite upd_other by exact D]; rewrite Ea; split; reflexivity.
-        - destruct (act_step start resume reg cfg tid top _) as [[s' o] its].
+        - destruct (act_step start resume reg cfail xfail r_refused r_exit cfg tid top _) as [[s' o] its].
           destruct o; [| |destruct restn|]; simpl; rewrite upd_other by exact D; rewrite Ea; split; reflexivity. }
     destruct (t_nest (g_th g tid)) as [|top restn].
     - rewrite Ea. destruct a as [c ph hd acx]. unfold act_step. simpl. destruct ph as [todo|k|r].
       + destruct todo as [|x todo]; [simpl; rewrite upd_same; simpl; split; reflexivity|].
-        destruct x as [l|]; [destruct (Nat.eqb (g_own g l) 0)|]; simpl; rewrite upd_same; simpl; split; reflexivity.
+        destruct x as [l|]; [destruct (cfail c (CLock l)); [destruct hd|destruct (Nat.eqb (g_own g l) 0)]|];
+          simpl; rewrite upd_same; simpl; try exact Logic.I; split; reflexivity.
       + destruct (resume k (g_ms g)) as [[ms' its] st]. destruct st as [k'|c' k'|r]; simpl;
           try (rewrite upd_same; simpl; split; reflexivity).
         destruct hd; simpl; rewrite upd_same; simpl; [exact Logic.I | split; reflexivity].
       + destruct hd as [|x h]; simpl; [rewrite upd_same; simpl; exact Logic.I|].
         destruct h; simpl; rewrite upd_same; simpl; [exact Logic.I | split; reflexivity].
-    - destruct (act_step start resume reg cfg tid top _) as [[s' o] its].
+    - destruct (act_step start resume reg cfail xfail r_refused r_exit cfg tid top _) as [[s' o] its].
       destruct o; [| |destruct restn|]; simpl; rewrite upd_same; simpl; rewrite Ea; simpl;
         try (split; reflexivity).
       unfold deliver. destruct (a_phase a); split; reflexivity.
@@ -1024,8 +1075,8 @@ Section Proto.
   Variable progs : nat -> list call.
   Notation reach := (reachable progs).
 
-  Lemma c06_invariant : forall sched, g_bad (run start resume ret reg cfg sched (init progs ms0)) = false ->
-    Inv (run start resume ret reg cfg sched (init progs ms0)).
+  Lemma c06_invariant : forall sched, g_bad (run start resume ret reg cfail xfail r_refused r_exit cfg sched (init progs ms0)) = false ->
+    Inv (run start resume ret reg cfail xfail r_refused r_exit cfg sched (init progs ms0)).
   Proof. intros sched Hb. apply run_inv; [apply init_inv | exact Hb]. Qed.
 
   Lemma c06_mutex : forall g t1 t2, reach g -> t1 <> 0 -> t2 <> 0 ->
@@ -1087,11 +1138,13 @@ Section Proto.
 
   (* when a thread has finished, the calls it completed are exactly its program, in program order *)
   Lemma c06_same_calls : forall g t, reach g -> t <> 0 ->
-    progs t = tcalls t (g_done g) ++ pend (g_th g t) ++ t_prog (g_th g t) /\
-    (thread_done (g_th g t) = true -> tcalls t (g_done g) = progs t).
+    progs t = tcalls t (g_fin g) ++ pend (g_th g t) ++ t_prog (g_th g t) /\
+    (thread_done (g_th g t) = true -> tcalls t (g_fin g) = progs t) /\
+    dpairs (g_done g) = processed (g_fin g).
   Proof.
     intros g t [sched [-> _]] N.
-    pose proof (run_pinv progs sched _ (init_pinv progs) t N) as H. split; [exact H|].
+    destruct (run_pinv progs sched _ (init_pinv progs)) as [HP HD].
+    pose proof (HP t N) as H. split; [exact H|]. split; [|exact HD].
     intro Hd. rewrite H. unfold thread_done in Hd. unfold pend.
     destruct (t_prog (g_th _ t)); [|discriminate]. destruct (t_cur (g_th _ t)); [discriminate|].
     simpl. rewrite !app_nil_r. reflexivity.
@@ -1109,26 +1162,28 @@ End Proto.
    runner (Model/LockIO.v) are ordinary schedules, so every theorem above covers what the harness runs *)
 From M Require Import LockIO.
 
-Lemma macro_go_is_run : forall tab cfg fuel first t (g : cgstate),
-  exists j, macro_go tab cfg fuel first t g = run (c_start tab) (c_resume tab) c_ret c_reg cfg (repeat t j) g.
+Lemma macro_go_is_run : forall tab fails cfg fuel first t (g : cgstate),
+  exists j, macro_go tab fails cfg fuel first t g =
+            run (c_start tab) (c_resume tab) c_ret c_reg (fail_at fails 1) (fail_at fails 2) c_refused c_exit cfg (repeat t j) g.
 Proof.
-  intros tab cfg. induction fuel as [|f IH]; intros first t g; simpl.
+  intros tab fails cfg. induction fuel as [|f IH]; intros first t g; simpl.
   - exists 0. reflexivity.
   - destruct (thread_done (g_th g t)); [exists 0; reflexivity|].
     destruct (first || negb (next_visible (g_th g t))); [|exists 0; reflexivity].
-    destruct (blocked g t).
+    destruct (blocked (fail_at fails 1) g t).
     + exists 1. reflexivity.
-    + destruct (IH false t (cstep tab cfg t g)) as [j Hj]. exists (S j). simpl. exact Hj.
+    + destruct (IH false t (cstep tab fails cfg t g)) as [j Hj]. exists (S j). simpl. exact Hj.
 Qed.
 
-Lemma macro_run_is_run : forall tab cfg msched (g : cgstate),
-  exists sched, macro_run tab cfg msched g = run (c_start tab) (c_resume tab) c_ret c_reg cfg sched g.
+Lemma macro_run_is_run : forall tab fails cfg msched (g : cgstate),
+  exists sched, macro_run tab fails cfg msched g =
+                run (c_start tab) (c_resume tab) c_ret c_reg (fail_at fails 1) (fail_at fails 2) c_refused c_exit cfg sched g.
 Proof.
-  intros tab cfg. induction msched as [|t r IH]; intro g; simpl.
+  intros tab fails cfg. induction msched as [|t r IH]; intro g; simpl.
   - exists []. reflexivity.
   - unfold macro_step. destruct (Nat.eqb t 0).
     + apply IH.
-    + destruct (macro_go_is_run tab cfg 60 true t g) as [j Hj].
-      destruct (IH (macro_go tab cfg 60 true t g)) as [s Hs].
+    + destruct (macro_go_is_run tab fails cfg 60 true t g) as [j Hj].
+      destruct (IH (macro_go tab fails cfg 60 true t g)) as [s Hs].
       exists (repeat t j ++ s). rewrite Hs, Hj. unfold run. rewrite fold_left_app. reflexivity.
 Qed.
